@@ -3,12 +3,12 @@
                                                page bodies that need decompression (phase 1)
      (fmt_validate STRICT #file TABLE)      -> (ok) | (bad why) | (uns why)
      (fmt_decode STRICT #file TABLE)        -> (ok (LEAF ...) (RG ...)) | (bad why) | (uns why)
-         LEAF = (#name TYPE TLEN MAXDEF (CONV)? (LOGICAL-MEMBER UNIT)?)   RG = (COLUMN ...)   COLUMN = (CELL ...)
+         LEAF = (#name TYPE TLEN MAXDEF (CONV)? (LOGICAL-MEMBER UNIT)? (SCALE)? (PRECISION)?)   RG = (COLUMN ...)   COLUMN = (CELL ...)
          CELL = () NULL | xN numeric bit pattern | #bytes
      TABLE = ((#KEY #uncompressed) ...), KEY = codec byte followed by the compressed bytes, instantiates `decompress` (phase 2; trusted: cramjam)
      STRICT = 1: a bit-packed run must be present in full; 0: only the bytes of the values needed. *)
 From Coq Require Import NArith ZArith List String Ascii Bool.
-From Pq Require Import Base.Bytes Base.ListX Extract.Sx Thrift.Compact Codec.Hybrid Format.Phys Format.Meta Format.Page Format.File Format.Enc Impl.RPages.
+From Pq Require Import Base.Bytes Base.ListX Extract.Sx Thrift.Compact Codec.Hybrid Format.Phys Format.Meta Format.Page Format.File Format.Enc Impl.RPages Impl.RChunk Impl.WPagesFmt.
 From Pq Require Extract.Cmd_Thrift.
 Import ListNotations.
 Open Scope string_scope.
@@ -34,7 +34,8 @@ Definition s_leaf (l : leaf) : sx :=
       match lf_logical l with
       | Some v => match logical_summary v with Some (a, b) => SL [sN a; sN b] | None => SL [] end
       | None => SL []
-      end].
+      end;
+      sopt SZ (lf_scale l); sopt SZ (lf_prec l)].
 
 Definition h_fmt_pages (a : list sx) : sx :=
   match a with
@@ -69,7 +70,7 @@ Definition h_fmt_decode (a : list sx) : sx :=
      (fmt_encode LFILE TABLE)    -> (ok #file)                  TABLE = ((#KEY #compressed) ...), KEY = codec byte followed by the raw bytes
      (fmt_table LFILE)           -> (ok (LEAF ...) (RG ...)) | (none)     the table the layout denotes
    LFILE = ((LEAF ...) (RG ...) (#created_by)?)
-     LEAF  = (#name TYPE TLEN OPTIONAL (CONV)? (LOGICAL)?)      LOGICAL = thrift value tree (Cmd_Thrift)
+     LEAF  = (#name TYPE TLEN OPTIONAL (CONV)? (LOGICAL)? (SCALE)? (PRECISION)?)      LOGICAL = thrift value tree (Cmd_Thrift)
      RG    = (CHUNK ...)    CHUNK = (CODEC STATS (ITEM ...))
      ITEM  = (dict ENC (VALUE ...)) | (page V2 NVALS (RUN ...) STORE (ISCOMP)? #trail)
      RUN   = (r COUNT V) | (b (V ...))
@@ -130,14 +131,15 @@ Definition as_chunk (s : sx) : option lchunk :=
 
 Definition as_lleaf (s : sx) : option lleaf :=
   match s with
-  | SL [SB nm; ty; tl; op; cv; lg] =>
-    match as_Z ty, as_N tl, as_bool op, as_opt as_Z cv, as_opt Cmd_Thrift.tv_of_sx lg with
-    | Some ty, Some tl, Some op, Some cv, Some lg =>
+  | SL [SB nm; ty; tl; op; cv; lg; sc; pr] =>
+    match as_Z ty, as_N tl, as_bool op, as_opt as_Z cv, as_opt Cmd_Thrift.tv_of_sx lg, as_opt as_Z sc, as_opt as_Z pr with
+    | Some ty, Some tl, Some op, Some cv, Some lg, Some sc, Some pr =>
       match ptype_of_id ty with
-      | Some t => Some {| ll_name := nm; ll_type := t; ll_tlen := tl; ll_optional := op; ll_conv := cv; ll_logical := lg |}
+      | Some t => Some {| ll_name := nm; ll_type := t; ll_tlen := tl; ll_optional := op; ll_conv := cv; ll_logical := lg;
+                          ll_scale := sc; ll_prec := pr |}
       | None => None
       end
-    | _, _, _, _, _ => None
+    | _, _, _, _, _, _, _ => None
     end
   | _ => None
   end.
@@ -204,6 +206,43 @@ Definition h_fmt_rd_data_page (a : list sx) : sx :=
   | _ => err "arity"
   end.
 
+(* impl model of the page loop of core.read_col (Impl/RChunk.v)
+     (fmt_rd_chunk INPLACE TYPE TLEN MAXDEF CODEC ROWS #chunk TABLE) -> (ok (CELL ...)) | (bad why) | (uns why) *)
+Definition h_fmt_rd_chunk (a : list sx) : sx :=
+  match a with
+  | [ip; ty; tl; md; co; rows; ch; t] =>
+    match as_bool ip, as_Z ty, as_N tl, as_N md, as_Z co, as_N rows, as_bytes ch, as_table t with
+    | Some ip, Some ty, Some tl, Some md, Some co, Some rows, Some ch, Some t =>
+      match ptype_of_id ty with
+      | Some pt =>
+        s_rs (fun cells => [slist s_cell cells])
+             (rd_chunk (table_decompress t) ch ip {| cd_type := pt; cd_tlen := tl; cd_maxdef := md |} co rows None ch 0 [])
+      | None => err "args"
+      end
+    | _, _, _, _, _, _, _, _ => err "args"
+    end
+  | _ => err "arity"
+  end.
+
+(* impl model of the PLAIN page payload write_column emits (Impl/WPagesFmt.v)
+     (fmt_fp_page V2 OPTIONAL TYPE TLEN (CELL ...)) -> (ok #payload)        CELL = () | number | #bytes *)
+Definition as_cell (s : sx) : option (option value) :=
+  match s with SL [] => Some None | _ => option_map Some (as_value s) end.
+
+Definition h_fmt_fp_page (a : list sx) : sx :=
+  match a with
+  | [v2; op; ty; tl; cells] =>
+    match as_bool v2, as_bool op, as_Z ty, as_N tl, Sx.as_list_of as_cell cells with
+    | Some v2, Some op, Some ty, Some tl, Some cells =>
+      match ptype_of_id ty with
+      | Some t => SL [S_ "ok"; SB (fp_plain_payload v2 op t tl cells)]
+      | None => err "args"
+      end
+    | _, _, _, _, _ => err "args"
+    end
+  | _ => err "arity"
+  end.
+
 Definition table : list (string * handler) :=
-  [("fmt_rd_data_page", h_fmt_rd_data_page); ("fmt_pages", h_fmt_pages); ("fmt_validate", h_fmt_validate); ("fmt_decode", h_fmt_decode);
+  [("fmt_fp_page", h_fmt_fp_page); ("fmt_rd_chunk", h_fmt_rd_chunk); ("fmt_rd_data_page", h_fmt_rd_data_page); ("fmt_pages", h_fmt_pages); ("fmt_validate", h_fmt_validate); ("fmt_decode", h_fmt_decode);
    ("fmt_payloads", h_fmt_payloads); ("fmt_encode", h_fmt_encode); ("fmt_table", h_fmt_table)].
